@@ -18,7 +18,7 @@ PROPS["C09"] = dict(
     check_fn="check_case_C09",
     coq_shard=20,
     translators=[dict(driver="token", args=["feefactor"], out="Gen/TokenFeeFactor.v")],
-    streams=[dict(name="main", quick=256, thorough=8000)],
+    streams=[dict(name="main", quick=256, thorough=5000)],
     rule="histories of 8-30 (thorough: 8-68) messages issue / edit / mint / burn / transfer-owner / update-params by 4 actors "
          "(owners and strangers, ~7% malformed), 1-4 tokens, scales 0..18, initial supply up to 10^11, maximum up to 2^64-1, "
          "mint amounts at the remaining room and room+-1 and at 2^64 / 2^128 / 2^200 / 2^255 (-1), burns of 2^128 / 2^255, burns of half a unit / one min unit / everything, edits of the maximum at "
@@ -48,9 +48,9 @@ PROPS["C10"] = dict(
     coq_shard=20,
     translators=[dict(driver="token", args=["feefactor"], out="Gen/TokenFeeFactor.v")],
     streams=[
-        dict(name="lossless", quick=4800, thorough=200000, check_fn="check_lossless", case_type="fncase", coq_shard=320,
+        dict(name="lossless", quick=4800, thorough=100000, check_fn="check_lossless", case_type="fncase", coq_shard=320,
              codes={4: "token-lossless-burn-out-of-range", 5: "token-lossless-mint-exceeds-worth", 6: "token-lossless-ratio-one-inexact"}),
-        dict(name="erc20", quick=224, thorough=6000),
+        dict(name="erc20", quick=224, thorough=3200),
     ],
     rule="stream lossless: LossLessSwap called as a pure function on (amount up to 2^128 incl. small, multiples of 10^|scale difference| +-1 and "
          "half-way cases of the 18th digit; ratio 1, 0.4, integers 2..10, random below / above 1 with 18 decimals; all scale pairs 0..18), "
